@@ -776,7 +776,10 @@ func (up4 *UP4) removeGTPTunnelPeer(far far) {
 	removeLog.Debugln("removing GTP Tunnel Peer ID")
 
 	if err := up4.p4client.ApplyTableEntries(p4.Update_DELETE, gtpTunnelPeerEntry); err != nil {
+		// The entry is still installed: its ID must not be handed out to another peer.
+		// The (now unused) tunnel peer stays registered and is removed with its next user.
 		removeLog.Errorln("failed to remove GTP tunnel peer")
+		return
 	}
 
 	up4.unsafeReleaseAllocatedGTPTunnelPeer(tunnelParameters)
@@ -843,6 +846,11 @@ func (up4 *UP4) addInternalApplicationIDAndGetP4rtEntry(pdr pdr) (*p4.TableEntry
 	return applicationsEntry, up4Application.id, nil
 }
 
+// removeInternalApplicationIDAndGetP4rtEntry returns the applications entry to delete together with the
+// PDR's entries (nil if the application stays in use by other PDRs) and the application ID of the PDR.
+// It does not change the bookkeeping: the PDR's reference and, with the last one, the application ID are
+// dropped by dropInternalApplicationReference() once the entries are gone from the switch. As long as an
+// entry that carries the ID is installed, the ID must not be handed out for another filter.
 func (up4 *UP4) removeInternalApplicationIDAndGetP4rtEntry(pdr pdr) (*p4.TableEntry, uint8) {
 	up4.applicationMu.Lock()
 	defer up4.applicationMu.Unlock()
@@ -854,11 +862,12 @@ func (up4 *UP4) removeInternalApplicationIDAndGetP4rtEntry(pdr pdr) (*p4.TableEn
 		return nil, 0
 	}
 
-	internalApp.usedBy.Remove(internalAppReference{
-		pdr.fseID, pdr.pdrID,
-	})
+	others := internalApp.usedBy.Cardinality()
+	if internalApp.usedBy.Contains(internalAppReference{pdr.fseID, pdr.pdrID}) {
+		others--
+	}
 
-	if internalApp.usedBy.Cardinality() != 0 {
+	if others != 0 {
 		return nil, internalApp.id
 	}
 
@@ -867,9 +876,29 @@ func (up4 *UP4) removeInternalApplicationIDAndGetP4rtEntry(pdr pdr) (*p4.TableEn
 		return nil, internalApp.id
 	}
 
-	up4.unsafeReleaseInternalApplicationID(appFilter)
-
 	return applicationsEntry, internalApp.id
+}
+
+// dropInternalApplicationReference removes the PDR's reference to the application of its filter and gives
+// the application ID back to the pool with the last reference.
+func (up4 *UP4) dropInternalApplicationReference(pdr pdr) {
+	up4.applicationMu.Lock()
+	defer up4.applicationMu.Unlock()
+
+	appFilter := toUP4ApplicationFilter(pdr)
+
+	internalApp, exists := up4.applicationIDs[appFilter]
+	if !exists {
+		return
+	}
+
+	internalApp.usedBy.Remove(internalAppReference{
+		pdr.fseID, pdr.pdrID,
+	})
+
+	if internalApp.usedBy.Cardinality() == 0 {
+		up4.unsafeReleaseInternalApplicationID(appFilter)
+	}
 }
 
 func (up4 *UP4) allocateAppMeterCellID() (uint32, error) {
@@ -1326,6 +1355,9 @@ func (up4 *UP4) modifyUP4ForwardingConfiguration(pdrs []pdr, allFARs []far, qers
 		// as a default value is installed if no application filtering rule exists
 		var applicationID uint8 = DefaultApplicationID
 
+		// set when the entries of a PDR with an application filter are deleted
+		applicationRemoved := false
+
 		if !pdr.IsAppFilterEmpty() {
 			if methodType != p4.Update_DELETE {
 				if entry, appID, err = up4.addInternalApplicationIDAndGetP4rtEntry(pdr); err == nil {
@@ -1341,6 +1373,7 @@ func (up4 *UP4) modifyUP4ForwardingConfiguration(pdrs []pdr, allFARs []far, qers
 					entriesToApply = append(entriesToApply, entry)
 				}
 
+				applicationRemoved = true
 				applicationID = appID
 			}
 		}
@@ -1406,6 +1439,10 @@ func (up4 *UP4) modifyUP4ForwardingConfiguration(pdrs []pdr, allFARs []far, qers
 
 				return ErrOperationFailedWithReason("applying table entries to UP4", p4Error.Error())
 			}
+		}
+
+		if applicationRemoved {
+			up4.dropInternalApplicationReference(pdr)
 		}
 	}
 
